@@ -6,14 +6,11 @@
    Xml/Plain.v (what is written for attributes).  `ord` is the order in which CPython iterated each node's
    set of namespaces: the theorems hold for every order, i.e. for every PYTHONHASHSEED.
 
-   The property is FALSE on the unchanged tree (C13_refuted): generated prefixes ns<i> ignore the caller's
-   mapping.  C13_partial is the property for callers without a prefix of the form ns<digits>
-   (decidable guard `no_generated_like`); the full statement, which a repaired
-   _new_namespace_declaration would satisfy, is
-
-     Theorem C13 : forall t caller ord, is_tag t = true -> valid_caller caller ->
-       order_ok (bfs_of t) ord -> (N.of_nat (n_namespaces t) < 2 ^ 16)%N ->
-       exists pm, collect caller (root_ns_of t) ord = Ok pm /\ c13_clauses caller (tree_nss t) pm.       *)
+   History: until commit b2d3b5a generated prefixes ns<i> ignored the caller's mapping and the property was false
+   (witness kept below as a regression example, C13_regression_ns0); the generated loop now skips every prefix
+   of the caller's normalised mapping and the theorem holds without a guard on the caller.  The bound counts
+   what the 2^16 candidates have to avoid: the namespaces of the tree and the entries of the normalised
+   mapping (the caller's, 2 global and at most 15 common ones).                                            *)
 From Coq Require Import List NArith Bool.
 From Delb.Base Require Import PyStr PyDict.
 From Delb.Gen Require Import GenNames GenNs.
@@ -27,33 +24,33 @@ Theorem C13_bound : new_namespace_declaration_bound = (2 ^ 16)%N.
 Proof. reflexivity. Qed.
 Print Assumptions C13_bound.
 
-(* for all trees, caller mappings without ns<digits> prefixes and iteration orders, with fewer than 2^16
-   namespaces: prefix collection succeeds (no AssertionError, no NotImplementedError) and the table
+(* for all trees, caller mappings and iteration orders, with fewer than 2^16 namespaces and mapping entries:
+   prefix collection succeeds (no AssertionError, no NotImplementedError) and the table
    covers / is injective / keeps the empty namespace un-prefixed and un-defaulted / honours the caller's
    non-empty prefixes / leaves xml and xmlns alone (c13_clauses, Ns/Prefixes.v) *)
-Theorem C13_partial : forall t caller ord,
-  is_tag t = true -> valid_caller caller -> no_generated_like caller = true ->
-  order_ok (bfs_of t) ord -> (N.of_nat (n_namespaces t) < 2 ^ 16)%N ->
+Theorem C13 : forall t caller ord,
+  is_tag t = true -> valid_caller caller ->
+  order_ok (bfs_of t) ord -> (N.of_nat (n_namespaces t + length caller + 17) < 2 ^ 16)%N ->
   exists pm, collect caller (root_ns_of t) ord = Ok pm /\ c13_clauses caller (tree_nss t) pm.
 Proof.
-  intros t caller ord H1 H2 H3 H4 H5.
-  destruct (collect_tree_clauses t caller ord H1 H2 H3 H4 H5) as [data [pm [_ [E [_ C]]]]].
+  intros t caller ord H1 H2 H4 H5.
+  destruct (collect_tree_clauses t caller ord H1 H2 H4 H5) as [data [pm [_ [E [_ C]]]]].
   exists pm. exact (conj E C).
 Qed.
-Print Assumptions C13_partial.
+Print Assumptions C13.
 
 (* declarations only on the root: an element's own attributes (named as the API admits) are never written
    under a key that reads as a declaration; the xmlns attributes come from declared_attributes, which only
    render_root (serialize_root) uses *)
 Theorem C13_declarations_only_on_root : forall t caller ord,
-  is_tag t = true -> valid_caller caller -> no_generated_like caller = true -> caller_prefixes_colon_free caller ->
-  order_ok (bfs_of t) ord -> (N.of_nat (n_namespaces t) < 2 ^ 16)%N ->
+  is_tag t = true -> valid_caller caller -> caller_prefixes_colon_free caller ->
+  order_ok (bfs_of t) ord -> (N.of_nat (n_namespaces t + length caller + 17) < 2 ^ 16)%N ->
   exists pm, collect caller (root_ns_of t) ord = Ok pm /\
     forall attrs, Forall attr_name_ok attrs ->
     forall k, In k (dict_keys (generate_attributes_data pm attrs)) -> is_decl_key k = false.
 Proof.
-  intros t caller ord H1 H2 H3 CF H4 H5.
-  destruct (collect_tree_clauses t caller ord H1 H2 H3 H4 H5) as [data [pm [EN [E [HI C]]]]].
+  intros t caller ord H1 H2 CF H4 H5.
+  destruct (collect_tree_clauses t caller ord H1 H2 H4 H5) as [data [pm [EN [E [HI C]]]]].
   exists pm. split; [exact E|]. intros attrs HA.
   exact (own_attributes_never_declare caller data pm (tree_nss t) attrs (normalize_ok _ _ EN) CF HI C HA).
 Qed.
@@ -64,44 +61,34 @@ Theorem C13_order_exists : forall t, order_ok (bfs_of t) (default_order (bfs_of 
 Proof. exact (fun t => default_order_ok (bfs_of t)). Qed.
 Print Assumptions C13_order_exists.
 
-(* ---- the refutation: <r><a xmlns="u1"><b xmlns="u2"/></a></r> with namespaces={"ns0": "u2"} ---------- *)
+(* ---- regression: <r><a xmlns="u1"><b xmlns="u2"/></a></r> with namespaces={"ns0": "u2"} (the witness of the
+   repaired finding C13-caller-prefix-looks-generated: AssertionError before b2d3b5a) ---------------------- *)
 Definition c13_witness_tree : node :=
   Tag [] [114%N] [] [Tag [117; 49]%N [97%N] [] [Tag [117; 50]%N [98%N] [] []]].
 Definition c13_witness_caller : caller_map := [(Some [110; 115; 48]%N, [117; 50]%N)].
-
-Theorem C13_refuted : exists t caller ord,
-  is_tag t = true /\ valid_caller caller /\ order_ok (bfs_of t) ord /\ (N.of_nat (n_namespaces t) < 2 ^ 16)%N /\
-  collect caller (root_ns_of t) ord = Crash AssertionError.
-Proof.
-  exists c13_witness_tree, c13_witness_caller, (default_order (bfs_of c13_witness_tree)).
-  split; [reflexivity|]. split.
-  - split; [repeat constructor; intros []|]. eexists. vm_compute. reflexivity.
-  - split; [apply default_order_ok|]. split; vm_compute; reflexivity.
-Qed.
-Print Assumptions C13_refuted.
-
-(* the witness is excluded by the guard, and only by the guard *)
-Example C13_witness_guard : no_generated_like c13_witness_caller = false.
-Proof. reflexivity. Qed.
+Example C13_regression_ns0 :
+  collect c13_witness_caller (root_ns_of c13_witness_tree) (default_order (bfs_of c13_witness_tree))
+  = Ok [([], []); ([117; 49]%N, [110; 115; 49; 58]%N); ([117; 50]%N, [110; 115; 48; 58]%N)].
+Proof. vm_compute. reflexivity. Qed.
 
 (* non-vacuity: a tree with a default namespace, an un-namespaced child, a prefixed attribute, the xml
-   namespace, and a caller mapping with a default and a prefix satisfies every hypothesis of C13_partial;
+   namespace, and a caller mapping with a default and a prefix satisfies every hypothesis of C13;
    the table that results *)
 Definition c13_example_tree : node :=
   Tag [117; 49]%N [114%N] [(xml_ns, [108; 97; 110; 103]%N, [101; 110]%N)]
       [Tag [] [97%N] [([117; 50]%N, [107%N], [118%N])] []; Tag [117; 51]%N [98%N] [] []].
 Definition c13_example_caller : caller_map := [(None, [117; 49]%N); (Some [112%N], [117; 50]%N)].
 Example C13_example :
-  is_tag c13_example_tree = true /\ valid_caller c13_example_caller /\ no_generated_like c13_example_caller = true
+  is_tag c13_example_tree = true /\ valid_caller c13_example_caller
   /\ caller_prefixes_colon_free c13_example_caller
-  /\ (N.of_nat (n_namespaces c13_example_tree) < 2 ^ 16)%N
+  /\ (N.of_nat (n_namespaces c13_example_tree + length c13_example_caller + 17) < 2 ^ 16)%N
   /\ collect c13_example_caller (root_ns_of c13_example_tree) (default_order (bfs_of c13_example_tree))
      = Ok [([117; 49]%N, [110; 115; 48; 58]%N); (xml_ns, [120; 109; 108; 58]%N); ([], []);
            ([117; 50]%N, [112; 58]%N); ([117; 51]%N, [110; 115; 49; 58]%N)].
 Proof.
   split; [reflexivity|]. split.
   - split; [repeat constructor; cbn; intuition discriminate|]. eexists. vm_compute. reflexivity.
-  - split; [reflexivity|]. split.
+  - split.
     + intros k n [H|[H|[]]]; injection H as <- <-; unfold colon_free, COLON; cbn; intuition discriminate.
     + split; vm_compute; reflexivity.
 Qed.
